@@ -5,6 +5,7 @@
 -/
 import AnyVecModel.Proofs.Vec
 import AnyVecModel.Proofs.KernelCap
+import AnyVecModel.Proofs.KernelDelegCap
 namespace AnyVec
 namespace C10
 
@@ -251,6 +252,27 @@ theorem heap_growth_is_the_source (v : VecSt) (a : Nat) (hb : v.bk = .heap) :
       | .panic m => .panic m
       | .ub m => .ub m :=
   KernelTie.heap_expand_tie v a hb
+
+/-- **source tie**: the capacity calls of the erased and the typed API reach the raw vector unchanged (same argument), `capacity()` is the storage's `size()`, a fixed-capacity backend's `expand` is the panic "Can't change capacity!", `expand_exact` defaults to `resize(size() + additional)`, `build_with_size` is `build` + `resize(capacity)`, and dropping a raw vector is `clear()` - as the source has them on this run. -/
+theorem capacity_delegations_are_the_source (len : Nat) (index : Nat) (known : Bool) :
+    Gen.Kernel.anyvec_reserve_trace len index = [.call "reserve" [index]] ∧
+    Gen.Kernel.anyvec_reserve_exact_trace len index = [.call "reserve_exact" [index]] ∧
+    Gen.Kernel.anyvec_shrink_to_fit_trace len index = [.call "shrink_to_fit" []] ∧
+    Gen.Kernel.anyvec_shrink_to_trace len index = [.call "shrink_to" [index]] ∧
+    Gen.Kernel.anyvec_set_len_trace len index = [.call "set_len" [index]] ∧
+    Gen.Kernel.anyvec_capacity_trace len index = [.call "capacity" []] ∧
+    Gen.Kernel.raw_capacity_trace len index = [.call "size" []] ∧
+    Gen.Kernel.raw_drop_trace len index = [.call "clear" []] ∧
+    Gen.Kernel.typed_reserve_trace len index = [.call "reserve" [index]] ∧
+    Gen.Kernel.typed_reserve_exact_trace len index = [.call "reserve_exact" [index]] ∧
+    Gen.Kernel.typed_shrink_to_fit_trace len index = [.call "shrink_to_fit" []] ∧
+    Gen.Kernel.typed_shrink_to_trace len index = [.call "shrink_to" [index]] ∧
+    Gen.Kernel.typed_set_len_trace len index = [.call "set_len" [index]] ∧
+    Gen.Kernel.typed_capacity_trace len index = [.call "capacity" []] ∧
+    Gen.Kernel.mem_expand_default_trace known = [.panic "Can't change capacity!"] ∧
+    Gen.Kernel.mem_expand_exact_default_trace known = [.call "size" [], .call "resize" []] ∧
+    Gen.Kernel.heap_build_with_size_trace len index = [.call "build" [], .call "resize" [index]] :=
+  KernelTie.deleg_capacity_tie len index known
 
 end C10
 end AnyVec
